@@ -38,6 +38,8 @@ static const Scenario kScenarios[] = {
             "ddsrc s in", "x out", { { "dd", "", 0, "ninja_dyndep_version = 1\nbuild out | out.imp: dyndep | h2\n" }, { "h2", "", KEEP_IF_SAME | HALVE, NULL }, { "out", "h2", 0, NULL }, { NULL } } },
   /* 12 */ { "restat_phony", { RULES "build gen.h: gen schema\nbuild lib: phony gen.h\nbuild hdrs: phony lib\nbuild x.out: cc x.in\nbuild y.out: cc y.in || hdrs\nbuild all: phony hdrs x.out y.out\n", NULL, NULL },
             "schema x.in y.in", "all", { { "gen.h", "", KEEP_IF_SAME | HALVE, NULL }, { NULL } } },
+  /* 13 */ { "wide3", { RULES "build w1: cc s1\nbuild w2: cc s2\nbuild w3: cc s3\nbuild top: cc w1 w2 w3\n", NULL, NULL },
+            "s1 s2 s3", "top", { { NULL } } },
 };
 #ifndef SCENARIO
 #define SCENARIO 0
